@@ -918,10 +918,16 @@ class OpGen:
         unsupported construct, so that some fake() calls raise inside the shared regex generator)."""
         import re as _re
         r = self.r
-        cfg = S.G.Cfg(r, depth=r.choice((1, 2)), budget=r.choice((32, 64)), p_neg=0.1, size=r.choice((1, 2, 3)),
+        cfg = S.G.Cfg(r, depth=r.choice((1, 2)), budget=r.choice((64, 256)), p_neg=0.1, size=r.choice((1, 2)),
                       max_repeat=32, p_unsup=r.choice((0.0, 0.0, 0.4)))
         for _ in range(12):
             ast = S.G.gen_pattern(cfg)
+            if r.random() < 0.2:
+                # an open-ended repeat whose minimum lies above the generator's default cap of 32
+                high = {"k": "rep", "body": {"k": "lit", "c": r.choice("abx")}, "min": r.choice((33, 40, 50)),
+                        "max": None, "lazy": r.random() < 0.3, "form": "{m,}"}
+                tail = ast["body"].get("items", [])[:1] if ast["body"]["k"] == "seq" else []
+                ast = {"k": "pat", "pre": None, "post": None, "body": {"k": "seq", "items": [high] + tail}}
             if not S.G.member_safe(ast):
                 continue
             pat = S.G.render(ast)
